@@ -299,6 +299,112 @@ def extract_live_helper(src):
     return ast.unparse(ast.fix_missing_locations(tree)) + '\n'
 
 
+def flip_compare_operands(src):
+    """a < b  ->  b > a   (single comparisons of side-effect-free operands)"""
+    tree = ast.parse(src)
+    flip = {ast.Lt: ast.Gt, ast.Gt: ast.Lt, ast.LtE: ast.GtE, ast.GtE: ast.LtE, ast.Eq: ast.Eq, ast.NotEq: ast.NotEq}
+
+    class S(ast.NodeTransformer):
+        def visit_Compare(self, n):
+            self.generic_visit(n)
+            if len(n.ops) == 1 and type(n.ops[0]) in flip:
+                return ast.copy_location(ast.Compare(n.comparators[0], [flip[type(n.ops[0])]()], [n.left]), n)
+            return n
+    return ast.unparse(ast.fix_missing_locations(S().visit(tree))) + '\n'
+
+
+def early_raise(src):
+    """if C: A  else: raise E   ->   if not C: raise E ; A"""
+    tree = ast.parse(src)
+
+    class S(ast.NodeTransformer):
+        def _block(self, body):
+            out = []
+            for st in body:
+                if isinstance(st, ast.If) and len(st.orelse) == 1 and isinstance(st.orelse[0], ast.Raise) \
+                        and not any(isinstance(x, ast.If) for x in st.orelse):
+                    out.append(ast.copy_location(ast.If(_negate(st.test), st.orelse, []), st))
+                    out.extend(st.body)
+                else:
+                    out.append(st)
+            return out
+
+        def generic_visit(self, node):
+            super().generic_visit(node)
+            for f in ('body', 'orelse', 'finalbody'):
+                b = getattr(node, f, None)
+                if isinstance(b, list) and b and isinstance(b[0], ast.stmt):
+                    # an elif chain lives in orelse as a single If: leave those alone
+                    if f == 'orelse' and len(b) == 1 and isinstance(b[0], ast.If):
+                        continue
+                    setattr(node, f, self._block(b))
+            return node
+    return ast.unparse(ast.fix_missing_locations(S().visit(tree))) + '\n'
+
+
+def where_to_flatnonzero(src):
+    tree = ast.parse(src)
+    has = [False]
+
+    class S(ast.NodeTransformer):
+        def visit_Subscript(self, n):
+            self.generic_visit(n)
+            v = n.value
+            if isinstance(v, ast.Call) and isinstance(v.func, ast.Name) and v.func.id == 'where' and len(v.args) == 1 \
+                    and isinstance(n.slice, ast.Constant) and n.slice.value == 0 and isinstance(v.args[0], ast.Compare) \
+                    and isinstance(v.args[0].left, ast.Subscript):
+                has[0] = True
+                return ast.copy_location(ast.Call(ast.Name('flatnonzero', ast.Load()), v.args, []), n)
+            return n
+    tree = S().visit(tree)
+    if has[0]:
+        for st in tree.body:
+            if isinstance(st, ast.ImportFrom) and st.module == 'numpy':
+                st.names.append(ast.alias('flatnonzero'))
+                break
+    return ast.unparse(ast.fix_missing_locations(tree)) + '\n'
+
+
+def swap_exclusive_elif(src):
+    """if radix == 4: A elif radix == 2: B ...  ->  if radix == 2: B elif radix == 4: A ...  (mutually exclusive tests)"""
+    tree = ast.parse(src)
+
+    def is_eq_const(t):
+        return isinstance(t, ast.Compare) and len(t.ops) == 1 and isinstance(t.ops[0], ast.Eq) and \
+            isinstance(t.left, ast.Name) and isinstance(t.comparators[0], ast.Constant)
+
+    class S(ast.NodeTransformer):
+        def visit_If(self, n):
+            self.generic_visit(n)
+            if is_eq_const(n.test) and len(n.orelse) == 1 and isinstance(n.orelse[0], ast.If) and is_eq_const(n.orelse[0].test) \
+                    and n.test.left.id == n.orelse[0].test.left.id:
+                inner = n.orelse[0]
+                new_inner = ast.If(n.test, n.body, inner.orelse)
+                return ast.copy_location(ast.If(inner.test, inner.body, [new_inner]), n)
+            return n
+    return ast.unparse(ast.fix_missing_locations(S().visit(tree))) + '\n'
+
+
+def range_len_to_enumerate(src):
+    """for i in range(len(xs)): ... -> for i, _unused in enumerate(xs): ...  (xs a plain name not rebound in the body)"""
+    tree = ast.parse(src)
+
+    class S(ast.NodeTransformer):
+        def visit_For(self, n):
+            self.generic_visit(n)
+            it = n.iter
+            if isinstance(n.target, ast.Name) and isinstance(it, ast.Call) and isinstance(it.func, ast.Name) and it.func.id == 'range' \
+                    and len(it.args) == 1 and isinstance(it.args[0], ast.Call) and isinstance(it.args[0].func, ast.Name) \
+                    and it.args[0].func.id == 'len' and isinstance(it.args[0].args[0], ast.Name):
+                xs = it.args[0].args[0].id
+                stored = any(isinstance(x, ast.Name) and x.id == xs and isinstance(x.ctx, ast.Store) for b in n.body for x in ast.walk(b))
+                if not stored:
+                    n.iter = ast.Call(ast.Name('enumerate', ast.Load()), [ast.Name(xs, ast.Load())], [])
+                    n.target = ast.Tuple([n.target, ast.Name('_unused_item', ast.Store())], ast.Store())
+            return n
+    return ast.unparse(ast.fix_missing_locations(S().visit(tree))) + '\n'
+
+
 TWINS = {
     'unparse': unparse_only,
     'rename-locals': rename_locals,
@@ -317,4 +423,9 @@ TWINS = {
     'strip-docstrings': strip_docstrings,
     'where-to-nonzero': where_to_nonzero,
     'extract-live-helper': extract_live_helper,
+    'flip-compare-operands': flip_compare_operands,
+    'early-raise': early_raise,
+    'where-to-flatnonzero': where_to_flatnonzero,
+    'swap-exclusive-elif': swap_exclusive_elif,
+    'range-len-to-enumerate': range_len_to_enumerate,
 }
